@@ -23,4 +23,17 @@ let v_1 := (ext "Heartbeat::start" [(VC "HeartbeatKind::Rx" []); (v_mul (VN 2) i
 let v_2 := (ext "Heartbeat::start" [(VC "HeartbeatKind::Tx" []); interval; timer]) in
 (VR [("rx", v_1); ("tx", v_2)]).
 
+(* ---- /repo/src/io_loop/heartbeat_timers.rs :: HeartbeatTimers.start ---- *)
+Definition gen_HeartbeatTimers_start (self : val) (interval : val) : val * val :=
+let self_1 := (v_set "heartbeats" (VC "Some" [(ext "RxTxHeartbeat::new" [(v_field "timer" self); interval])]) self) in
+(self_1, (VC "()" [])).
+
+(* ---- /repo/src/io_loop/heartbeat_timers.rs :: HeartbeatTimers.fire_rx ---- *)
+Definition gen_HeartbeatTimers_fire_rx (self : val) : val * val :=
+(self, (ext "fire" [(v_field "rx" (ext "expect" [(ext "as_mut" [(v_field "heartbeats" self)]); (VBytes [102; 105; 114; 101; 95; 114; 120; 32; 99; 97; 108; 108; 101; 100; 32; 111; 110; 32; 101; 109; 112; 116; 121; 32; 104; 101; 97; 114; 116; 98; 101; 97; 116; 115])])); (v_field "timer" self)])).
+
+(* ---- /repo/src/io_loop/heartbeat_timers.rs :: HeartbeatTimers.fire_tx ---- *)
+Definition gen_HeartbeatTimers_fire_tx (self : val) : val * val :=
+(self, (ext "fire" [(v_field "tx" (ext "expect" [(ext "as_mut" [(v_field "heartbeats" self)]); (VBytes [102; 105; 114; 101; 95; 116; 120; 32; 99; 97; 108; 108; 101; 100; 32; 111; 110; 32; 101; 109; 112; 116; 121; 32; 104; 101; 97; 114; 116; 98; 101; 97; 116; 115])])); (v_field "timer" self)])).
+
 End Gen.
